@@ -46,3 +46,34 @@ Corollary pipeline_foreground_naive x c a a' : nonneg_arr a -> nonneg_arr a' ->
 Proof.
   intros Hn Hn' Hk Hp. rewrite <- (pipeline_strip_naive x c a Hn Hk), <- (pipeline_strip_naive x c a' Hn' Hk). now apply pipeline_perm.
 Qed.
+
+(* ---- the merge matcher ---- *)
+From Pan Require Import Proofs.MergeFacts.
+
+Lemma merge_wf x c a :
+  (forall cd, In cd (cand_list x (c_mmetric c) a) -> fst cd = x_union x (cref cd) [cpred cd]) ->
+  let st := merge_match (better_eq (decreasing (c_mmetric c))) Qeq_bool (fun s => beats (decreasing (c_mmetric c)) s (c_mthr c)) (x_union x)
+              (cand_list x (c_mmetric c) a) in
+  wf_matching (ms_map st) a.
+Proof.
+  intros Hseed st. set (decr := decreasing (c_mmetric c)) in *.
+  destruct (merge_match_inv Q (better_eq decr) (better_eq_refl decr) (better_eq_trans decr) Qeq_bool
+              (fun s => beats decr s (c_mthr c)) (fun u v => beats_up decr (c_mthr c) u v) (x_union x) _ Hseed) as [H1 _ _ H4].
+  fold st in H1, H4. split; [exact H1|]. intros p r Hin. destruct (H4 p r Hin) as (cd & Hc & Er & Ep).
+  assert (Hc' : In cd (cand_list x (c_mmetric c) a)).
+  { exact (Permutation_in _ (Permutation_sym (sort_perm Q (better_eq decr) _)) Hc). }
+  apply cand_list_pairs, overlap_pairs_spec in Hc' as (Hin' & Hr & Hp). unfold cref, cpred in Er, Ep. subst p r. split.
+  - apply pred_labels_spec. split; [exact Hp|]. exists (snd cd). auto.
+  - apply ref_labels_spec. split; [exact Hr|]. exists (snd cd). auto.
+Qed.
+
+Theorem pipeline_strip_merge x c a : nonneg_arr a -> c_matcher c = 3 ->
+  (forall cd, In cd (cand_list x (c_mmetric c) a) -> fst cd = x_union x (cref cd) [cpred cd]) ->
+  pipeline x c (strip a) = pipeline x c a.
+Proof.
+  intros Hnn Hk Hseed. unfold pipeline. rewrite Hk. cbn [Z.eqb Pos.eqb].
+  destruct (strip_labels a) as [Ep Er]. unfold n_pred_inst, n_ref_inst. rewrite Ep, Er.
+  destruct (zero_case _ _); [reflexivity|].
+  unfold match_phase. rewrite Hk. cbn [Z.eqb Pos.eqb]. rewrite cand_list_strip.
+  rewrite (relabel_strip _ a Hnn (merge_wf x c a Hseed)). apply eval_phase_strip.
+Qed.
